@@ -164,7 +164,7 @@ pub fn units(tier: Tier, seed: u64) -> Vec<Unit> {
         u.push(unit!(format!("C05/MyRSI-definition/N={n}/k={k}/sample-path"), myrsi_def(n, k)));
         if n <= 16 { u.push(unit!(format!("C05/negation/N={n}/k={k}/sample-path"), negation(n, k.min(n + 12)))); }
     }
-    for (i, x) in u.iter_mut().enumerate().skip(first) { x.concolic = Some(seed * 31 + 1 + (i as u64 % 2)); x.budget_s = 60.0; x.max_decisions = 60000; }
+    for (i, x) in u.iter_mut().enumerate().skip(first) { x.concolic = Some(seed * 31 + 1 + (i as u64 % 2)); x.budget_s = 60.0; x.max_decisions = 2_000_000; }
     // windows of 10 and more, fully symbolic shaped streams (all comparison outcomes of the few parameters)
     let first = u.len();
     for &n in &(if tier == Tier::Quick { vec![10usize, 11] } else { vec![7usize, 10, 11, 13, 16] }) {
